@@ -175,7 +175,11 @@ class Module(object):
         except SyntaxError as e:
             raise AnalysisError('parse:' + relpath, str(e))
         # locals are identified by role, not by name (sa/alpha.py)
-        from . import alpha
+        from . import alpha, inline
+        known = alpha.table().get(relpath, {}).get('__functions__')
+        self.inlined_helpers = 0
+        if not os.environ.get('VERIF_NO_ALPHA'):
+            self.inlined_helpers = inline.inline_new_helpers(tree, known)
         self.renamed_locals = alpha.normalise(tree, relpath)
         self.tree = set_parents(tree)
         self.imports = {}    # local alias -> fully qualified dotted target
